@@ -24,6 +24,21 @@ _UF_IDS = {f.get_id(): n for n, f in UF.items()}
 _POW_ID = POW.get_id()
 
 
+_APPS = {}
+
+
+def abstract_ufs(terms):
+    """Replace every elementary-function / pow application by a fresh real
+    constant (no congruence, no identities).  This only ADDS models, so
+    `unsat` of the abstraction implies `unsat` of the original query."""
+    _APPS.clear()
+    _collect(terms)
+    if not _APPS:
+        return None
+    subs = [(app, z3.Real(f"uf!{i}")) for i, app in _APPS.items()]
+    return [z3.substitute(t, *subs) for t in terms]
+
+
 def _collect(terms):
     """all UF applications (name, arg) and pow applications (a, b) occurring
     in the given z3 terms"""
@@ -41,8 +56,10 @@ def _collect(terms):
             d = e.decl().get_id()
             if d in _UF_IDS:
                 ufs[(_UF_IDS[d], e.arg(0).get_id())] = (_UF_IDS[d], e.arg(0))
+                _APPS[i] = e
             elif d == _POW_ID:
                 pows[i] = (e.arg(0), e.arg(1))
+                _APPS[i] = e
             stack.extend(e.children())
     return list(ufs.values()), list(pows.values())
 
@@ -139,11 +156,33 @@ def _cvc5_check(smt2: str, timeout_s: int):
     return res if res in ("sat", "unsat") else "unknown"
 
 
-def valid(claim, pc=(), assumptions=(), timeout_ms=20000, want_model=True) -> Verdict:
-    """Is `claim` implied by pc and assumptions (and axioms)?"""
+def valid(claim, pc=(), assumptions=(), timeout_ms=20000, want_model=True, weak_sat=False) -> Verdict:
+    """Is `claim` implied by pc and assumptions (and axioms)?
+
+    Two encodings are tried: (1) elementary-function applications abstracted
+    to fresh reals -- a pure polynomial/rational query; `unsat` there is
+    `unsat` of the real query; (2) the full query with uninterpreted functions
+    and identity axioms.  With weak_sat=True a `sat` of (1) is returned (flagged
+    weak) when (2) is not decided: the caller must replay it numerically."""
     c = sbool_term(claim)
     hyps = [sbool_term(a) for a in list(pc) + list(assumptions)]
     neg = z3.Not(c)
+    t0 = time.perf_counter()
+    abs_model = None
+    ab = abstract_ufs(hyps + [neg])
+    if ab is not None:
+        sa = z3.Solver()
+        sa.set("timeout", min(timeout_ms, 8000))
+        for h in ab:
+            sa.add(h)
+        ra = sa.check()
+        if ra == z3.unsat:
+            dt = time.perf_counter() - t0
+            STATS.query_time += dt
+            STATS.queries["unsat"] += 1
+            return Verdict("unsat", None, dt, "z3/abstracted")
+        if ra == z3.sat:
+            abs_model = sa.model()
     ax = axioms_for(hyps + [neg])
     s = z3.Solver()
     s.set("timeout", timeout_ms)
@@ -152,7 +191,6 @@ def valid(claim, pc=(), assumptions=(), timeout_ms=20000, want_model=True) -> Ve
     for a in ax:
         s.add(a)
     s.add(neg)
-    t0 = time.perf_counter()
     r = s.check()
     dt = time.perf_counter() - t0
     STATS.query_time += dt
@@ -168,6 +206,9 @@ def valid(claim, pc=(), assumptions=(), timeout_ms=20000, want_model=True) -> Ve
         if res == "unsat":
             STATS.queries["unsat"] += 1
             v = Verdict("unsat", None, dt, "cvc5")
+        elif weak_sat and abs_model is not None:
+            STATS.queries["sat"] += 1
+            v = Verdict("sat", abs_model, dt, "z3/abstracted-weak")
         else:
             STATS.queries["unknown"] += 1
             v = Verdict("unknown", None, dt)
